@@ -1,4 +1,4 @@
-\* X03 thorough: every sequence of <= 4 builder calls out of 23 (emit_to / and_emit_to x 3 destinations, map_emitter {when has_a, when ctx1,
+\* X03 thorough: every sequence of <= 5 builder calls out of 23 (emit_to / and_emit_to x 3 destinations, map_emitter {when has_a, when ctx1,
 \* drop, id}, emit_when / and_emit_when x {has_a, ctx1, timed}, with_ctxt {1, 2}, map_ctxt plus, with_clock {no reading, 7}, with_rng {1, 2});
 \* 4 events (none / a / b with own extent / a+b) x {through the runtime, directly through its emitter}. Exhaustive.
 SPECIFICATION Spec
@@ -11,7 +11,7 @@ CONSTANTS
     Rngs = {1, 2}
     Events <- MC_Events
     SysT = 99
-    MaxCalls = 4
+    MaxCalls = 5
     Emit = TRUE
 VIEW view
 INVARIANTS BuilderRefinesAlgebra OncePerRegistration FilterOnlyRemoves
